@@ -60,6 +60,21 @@ def cube_cases(tier, min_subcubes=1):
             yield [d.copy() for d in combo], ext
 
 
+def big_scaffold_cases(tier):
+    """Cubes whose scaffold has many sub-cubes (65 .. 260): anything that batches, chunks or caps the task list shows here."""
+    N = 4
+    lays = [[(N, 65)], [(N, 9), (N, 9)], [(N, 5, 13), (N,)], [(N, 130)]]
+    if tier == "thorough":
+        lays += [[(N, 257)], [(N, 17), (N, 16)], [(N, 1025)]]
+    for lay in lays:
+        dims = []
+        for i, s in enumerate(lay):
+            n = int(np.prod(s))
+            dims.append(((np.arange(n) * (i + 2) + (np.arange(n) // 7)) % 3).reshape(s).astype(np.int64))
+        ext = tuple(3 + (1 if i == 0 else 0) for i in range(len(lay)))
+        yield dims, ext
+
+
 def facts(N):
     """fact / weight arrays of N rows (deterministic, with missing values and garbage under False validity)."""
     base = np.array(([1.0, NaN, 2.5, -3.0, 0.0, 4.0] * 3)[:N])
